@@ -3,6 +3,11 @@
 HOOK_COMMITS = ["ed224dc", "bc3b859", "c46a242", "76a81b6"]
 
 ENGINES = [
+    {"name": "nfs", "path": "specs/NfsVoucher.tla specs/NfsTrace.tla lib/engines/nfs.py harness/src/nfs.rs",
+     "serves_properties": ["C19"],
+     "kind_free_text": "TLA+ state machine of the process-global base time (trusted devices, files, clock) with the A-level action "
+     "properties and a transcription of update_base_time / scan / add_trusted_path; TLC design MC; real call sequences on two real "
+     "devices, one process per trace; TLC trace validation"},
     {"name": "atomic", "path": "specs/AtomicBaseTime.tla specs/AtomicMC.tla specs/AtomicTrace.tla lib/engines/atomic.py "
      "harness/src/atomic.rs",
      "serves_properties": ["C13", "C18"],
@@ -87,6 +92,23 @@ ATOMIC_NOTE = ("Bounded: thread programs of 2-4 threads with <= 4 calls each; th
                "by TLC against the TLA+ memory model; an illegal one is a tool error), TLC.")
 
 CHECKS = {
+    "C19": {
+        "engine": "nfs",
+        "technique": "TLA+ spec + TLC model checking of action properties; TLC trace validation of real call sequences on two real devices",
+        "text": "NfsVoucher.tla states the property as action properties (Monotone, OnlyTrustedEvidence, UntrustedIgnored, ReturnsVouched) over "
+                "trusted devices / base / files / clock and transcribes update_base_time (blocking / touch / extra_device), the scan loop and "
+                "add_trusted_path; TLC checks them on 2 devices x 3 files x 3-4 ticks incl. re-pointed paths and lost try_update races (the "
+                "variant that skips the device check is rejected). Real module: 40 (quick) / 400 (thorough) random call sequences + 2 scripted "
+                "ones, each in its own process, on files of the work directory and of tmpfs /dev/shm created milliseconds apart (touches, old "
+                "mtimes, symlinks re-pointed across devices, trust established early/late, `now` on both sides of the refresh threshold); after "
+                "every call TLC checks the base time and the returned pair against the change-times and devices the harness itself observed, and "
+                "that every returned pair passes VouchedTime's voucher check.",
+        "design_ref": "DESIGN.md section 6, C19",
+        "note": "Real file system and real time: trace validation cannot dictate ctimes (no spec->impl replay); the spec only relates values "
+                "the harness observed, so coarse timestamps cannot cause false alarms. Times are logged relative to the start of the run "
+                "(32-bit TLC integers). The refresh decision is policy and left free. If /dev/shm is not a second device the untrusted-device "
+                "cases degrade and the evidence says so.",
+    },
     "C13": {
         "engine": "atomic",
         "technique": "TLA+ spec on a release/acquire memory model + TLC model checking with orderings extracted from the code; real code replay-stepped on simulated memory, TLC trace validation",
